@@ -70,6 +70,32 @@ theorem giniDen_scale (c : K) (y : List K) :
   simp only [List.map_id']
   ring
 
+/-! ### translation -/
+
+theorem sum_map_add_const (y : List K) (c : K) : (y.map fun v => v + c).sum = y.sum + (y.length : K) * c := by
+  induction y with
+  | nil => simp
+  | cons a as ih => simp only [List.map_cons, List.sum_cons, List.length_cons, ih]; push_cast; ring
+
+theorem giniRowSum_translate (y : List K) (a c : K) :
+    giniRowSum (y.map fun v => v + c) (a + c) = giniRowSum y a := by
+  unfold giniRowSum
+  rw [List.map_map]
+  congr 1
+  apply List.map_congr_left
+  intro b _
+  show absv (a + c - (b + c)) = absv (a - b)
+  rw [add_sub_add_right_eq_sub]
+
+/-- absolute differences do not see a common shift -/
+theorem giniNum_translate (y : List K) (c : K) : giniNum (y.map fun v => v + c) = giniNum y := by
+  unfold giniNum
+  rw [List.map_map]
+  congr 1
+  apply List.map_congr_left
+  intro a _
+  exact giniRowSum_translate y a c
+
 /-! ### insertion sort -/
 
 theorem insertSorted_perm (x : K) (l : List K) : (insertSorted x l).Perm (x :: l) := by
